@@ -41,6 +41,13 @@ def f_errval(x):
     return x
 
 
+def f_none(x):
+    # a side-effect function: returns None for most elements
+    if khash(x) % 4 == 0:
+        return ('kept', x)
+    return None
+
+
 def p_even(x):
     return khash(x) % 2 == 0
 
@@ -75,7 +82,7 @@ def materialize(kv):
     return (kv[0], list(kv[1]))
 
 
-FUNCS = {f.__name__: f for f in (f_tag, f_tag_kw, f_fail5, f_ident, f_errval, p_even, p_mod3_kw, p_fail7, k_mod2, k_mod3_kw, acc, acc_kw)}
+FUNCS = {f.__name__: f for f in (f_tag, f_tag_kw, f_fail5, f_ident, f_errval, f_none, p_even, p_mod3_kw, p_fail7, k_mod2, k_mod3_kw, acc, acc_kw)}
 
 EXC = {'Boom': Boom, 'Exception': Exception, 'ValueError': ValueError, 'LookupError': LookupError, 'KeyError': KeyError, None: None}
 
@@ -249,7 +256,7 @@ def alphabet(n):
         ['buffer', 1], ['buffer', 3],
         ['parmap', 'f_tag', 1, False, False], ['parmap', 'f_fail5', 2, False, True], ['parmap', 'f_fail5', 2, True, False],
         ['parmap', 'f_tag_kw', 2, True, True, {'suffix': 'q'}],
-        ['parmap', 'f_ident', 2, False, False], ['parmap', 'f_errval', 2, False, False], ['parmap', 'f_errval', 1, True, True], ['map', 'f_errval'],
+        ['parmap', 'f_ident', 2, False, False], ['parmap', 'f_errval', 2, False, False], ['parmap', 'f_errval', 1, True, True], ['map', 'f_errval'], ['map', 'f_none'], ['parmap', 'f_none', 2, False, False],
         ['shuffle', 2],
     ]
     return ops
